@@ -316,7 +316,7 @@ INV_D_TEXT = ("INV_D (Dijkstra, weight factor 0; 'closed' = has a cost and is no
 prop(
     "C02",
     runs=[dict(crate="loop", quick=["astar::dj::bf_fixpoint_v2_e2", "astar::dj::base_dijkstra_v2_e2", "astar::dj::step_dijkstra_v2_e1", "astar::dj::step_dijkstra_v2_e2"],
-               thorough=["astar::dj::"], jobs=6)],
+               thorough=["astar::dj::", "astar::djt::"], jobs=4)],
     ht_quick=1800, ht_thorough=6000,
     functions=LOOP_FUNCTIONS + ["InternalPriorityQueue::{push, push_increase, pop} (table model of the queue: pop returns AN entry of maximal priority)"],
     bounds=("DIJKSTRA ONLY (weight factor Some(0)), vertex-oriented, edge costs that do not depend on how the edge was reached. " + LOOP_BOUNDS +
